@@ -109,6 +109,7 @@ type node struct {
 	snapshotter           *snapshotter
 	mq                    *server.MessageQueue
 	qs                    *quiesceState
+	witnesses             []uint64 // only accessed by the step worker
 	raftAddress           string
 	config                config.Config
 	currentTick           uint64
@@ -1013,9 +1014,30 @@ func (n *node) sendEnterQuiesceMessages() {
 	}
 }
 
+// sendBeforeSave returns whether the message can leave before the entries of
+// the update it belongs to have been saved (see the raft thesis section
+// 10.2.1). A witness is only ever sent entries that are durable on the leader:
+// it can not become leader itself, so when the leader lost, in a crash, an
+// entry the witness already holds, the witness would refuse to vote for the
+// restarted leader (its own log is longer) and, with the other full member
+// down, no leader could be elected any more.
+func (n *node) sendBeforeSave(m pb.Message) bool {
+	if !isFreeOrderMessage(m) {
+		return false
+	}
+	if m.Type == pb.Replicate {
+		for _, id := range n.witnesses {
+			if id == m.To {
+				return false
+			}
+		}
+	}
+	return true
+}
+
 func (n *node) sendMessages(msgs []pb.Message) {
 	for _, msg := range msgs {
-		if !isFreeOrderMessage(msg) {
+		if !n.sendBeforeSave(msg) {
 			msg.ShardID = n.shardID
 			n.sendRaftMessage(msg)
 		}
@@ -1024,7 +1046,7 @@ func (n *node) sendMessages(msgs []pb.Message) {
 
 func (n *node) sendReplicateMessages(ud pb.Update) {
 	for _, msg := range ud.Messages {
-		if isFreeOrderMessage(msg) {
+		if n.sendBeforeSave(msg) {
 			msg.ShardID = n.shardID
 			// these messages leave before the entries of this update are saved.
 			// when the local replica alone is the quorum, the commit index has
@@ -1169,6 +1191,7 @@ func (n *node) stepNode() (pb.Update, bool, error) {
 			if err != nil {
 				return pb.Update{}, false, err
 			}
+			n.witnesses = n.p.WitnessIDs(n.witnesses)
 			return ud, hasUpdate, nil
 		}
 	}
